@@ -7,6 +7,8 @@ import (
 	"strconv"
 	"strings"
 
+	"github.com/google/badwolf/bql/grammar"
+	"github.com/google/badwolf/bql/planner"
 	"github.com/google/badwolf/bql/semantic"
 	"github.com/google/badwolf/bql/table"
 	"github.com/google/badwolf/storage"
@@ -165,12 +167,16 @@ type limTokCase struct {
 	Outcome string `json:"outcome"` // ok | parse | panic
 	Set     bool   `json:"set"`
 	Limit   string `json:"limit,omitempty"`
+	Rows    int    `json:"rows"` // rows returned over a graph of 12 matching triples
 }
 
 var limitTexts = []string{
 	`"0"^^type:int64`, `"1"^^type:int64`, `"2"^^type:int64`, `"10"^^type:int64`, `"9223372036854775807"^^type:int64`,
 	`"-1"^^type:int64`, `"-5"^^type:int64`, `"-9223372036854775808"^^type:int64`, `"+3"^^type:int64`,
 	`"1.5"^^type:float64`, `"2"^^type:float64`, `"true"^^type:bool`, `"3"^^type:text`, `"[1 2]"^^type:blob`,
+	// spellings: the limit is the DECIMAL int64 literal the literal parser accepts (leading zeros are decimal; no base
+	// prefixes, no underscores)
+	`"010"^^type:int64`, `"08"^^type:int64`, `"0x5"^^type:int64`, `"0b11"^^type:int64`, `"0o7"^^type:int64`, `"1_0"^^type:int64`, `"0010"^^type:int64`,
 	`"9223372036854775808"^^type:int64`, `"abc"^^type:int64`, `"1e3"^^type:int64`, `" 4"^^type:int64`, `"007"^^type:int64`,
 }
 
@@ -197,10 +203,16 @@ func runLimTok(text string) limTokCase {
 		}
 	}()
 	ctx := context.Background()
-	st := newGraph(ctx, "?g", nil)
+	pv, _ := predicate.NewImmutable("v")
+	var ts []*triple.Triple
+	for i := 0; i < 12; i++ {
+		t, _ := triple.New(mustNode("/u", fmt.Sprintf("n%02d", i)), pv, triple.NewLiteralObject(mustLit(literal.Int64, int64(i))))
+		ts = append(ts, t)
+	}
+	st := newGraph(ctx, "?g", ts)
 	q := `SELECT ?s FROM ?g WHERE {?s "v"@[] ?o} LIMIT ` + text + `;`
 	res, stm := runQuery(ctx, st, q)
-	c.Outcome = res.Outcome
+	c.Outcome, c.Rows = res.Outcome, len(res.Rows)
 	if c.Outcome == "exec" || c.Outcome == "plan" {
 		c.Outcome = "ok" // the LIMIT token was accepted; what happens later is not this case's business
 	}
@@ -463,4 +475,65 @@ func genE2E12(r *rand.Rand) e2eCase {
 		c.CfgSeen = seenCfg(stm.OrderByConfig())
 	}
 	return c
+}
+
+// genSeq12: TWO ORDER BY statements parsed one after the other BY THE SAME PARSER (same grammar value, same hook closures)
+// and executed only afterwards: what the first statement asks for must not depend on what was parsed after it.
+func genSeq12(r *rand.Rand) []e2eCase {
+	ctx := context.Background()
+	vK := []string{[]string{"intD", "textD", "int"}[r.Intn(3)]}
+	ts := genTriples(r, vK, vK, 3+r.Intn(6), true)
+	st := newGraph(ctx, "?g", ts)
+	baseQ := `SELECT ?s, ?o FROM ?g WHERE {?s "v"@[] ?o};`
+	base, _ := runQuery(ctx, st, baseQ)
+	p, err := grammar.NewParser(grammar.SemanticBQL())
+	if err != nil {
+		panic(err)
+	}
+	var cases []e2eCase
+	var stms []*semantic.Statement
+	for i := 0; i < 2; i++ {
+		c := e2eCase{Mode: "e2e12", Shape: "sequence", Triples: tripleStrings(ts), BaseQ: baseQ, Base: base}
+		nk := 1 + r.Intn(2)
+		for k := 0; k < nk; k++ {
+			c.Cfg = append(c.Cfg, jkey{B: []string{"?s", "?o"}[(k+i+r.Intn(2))%2], Desc: (i == 1) != (r.Intn(4) == 0)})
+		}
+		if len(c.Cfg) == 2 && c.Cfg[0].B == c.Cfg[1].B {
+			c.Cfg = c.Cfg[:1]
+		}
+		c.Q = `SELECT ?s, ?o FROM ?g WHERE {?s "v"@[] ?o}` + orderByText(c.Cfg, r) + ";"
+		stm := &semantic.Statement{}
+		if err := p.Parse(grammar.NewLLk(c.Q, 1), stm); err != nil {
+			c.Res = execResult{Outcome: "parse", Detail: firstLine(err.Error())}
+			stm = nil
+		}
+		stms = append(stms, stm)
+		cases = append(cases, c)
+	}
+	for i, stm := range stms {
+		if stm == nil {
+			continue
+		}
+		func() {
+			defer func() {
+				if e := recover(); e != nil {
+					cases[i].Res = execResult{Outcome: "panic", Detail: firstLine(fmt.Sprint(e))}
+				}
+			}()
+			cases[i].CfgSeen = seenCfg(stm.OrderByConfig())
+			pln, err := planner.New(ctx, st, stm, 0, 10, nil)
+			if err != nil {
+				cases[i].Res = execResult{Outcome: "plan"}
+				return
+			}
+			tbl, err := pln.Execute(ctx)
+			if err != nil {
+				cases[i].Res = execResult{Outcome: "exec", Detail: firstLine(err.Error())}
+				return
+			}
+			bs := tbl.Bindings()
+			cases[i].Res = execResult{Outcome: "ok", Bindings: bs, Rows: renderRows(tbl.Rows(), bs)}
+		}()
+	}
+	return cases
 }
